@@ -73,7 +73,7 @@ def ready_rule(case, obs):
     if not mine or obs["outcome"][0] == "fuel": return None
     # a dispatch that is still in progress at the end (its input() opened a modal screen / a processing call and never came back) has not reached the later
     # handlers yet: the rule is applied to runs without such nesting
-    if any(ev[0] == "api" and ev[1] in ("push_modal", "proc", "new_loop", "get_user_input") for i, ev, ctx in x.events()): return None
+    if any((ev[0] == "api" and ev[1] in ("push_modal", "proc", "new_loop", "get_user_input")) or (ctx.get("depth") or 0) >= 2 for i, ev, ctx in x.events()): return None
     for h in mine:
         reg = 0
         if h.get("late"):
